@@ -30,7 +30,11 @@ def mixed_argument_runs(sc, rng, trials):
     common.build_harness(["mk_lz4"])
     # (every stored form of a text log beneath a walked directory: found by the walk exactly as when named)
     trees = {"dirA": ["a1.log", "sub/a2.log", "sub/deep/a3.log", "pk/z1.log.gz", "pk/z2.log.xz", "pk/z3.log.bz2", "pk/z4.log.lz4",
-                      "pk/z5.log.old.gz", "pk/z6.1.lz4"] + ["many/f%02d.log" % q for q in range(25)],
+                      "pk/z5.log.old.gz", "pk/z6.1.lz4",
+                      # a directory next to siblings whose names begin with its name and go on with a byte below '/': sorted by
+                      # path COMPONENTS the directory's files come first, sorted as one string they would not
+                      "app/worker.log", "app/z.log", "app.log", "app 2.log", "app-old.log", "app.d/x.log", "app+x.log"]
+                     + ["many/f%02d.log" % q for q in range(25)],
              "dirB": ["b1.log"], "dirC": ["x/c1.log", "y/c2.log"], "dirD": []}
     files = ["f1.log", "f2.log", "g/f3.log", "t.tar"]
     cont = {}
